@@ -505,6 +505,18 @@ func (s *Sim) execBlock(spec *BlockSpec) {
 		s.Stats.Inc("probe/db_iterator_leaked_on_out_of_gas", float64(n))
 	}
 	if dbg := os.Getenv("ELYSSIM_DEBUG_EVENTS"); dbg != "" && res0.Resp != nil && dbg == fmt.Sprint(h) {
+		for i, tr := range res0.Resp.TxResults {
+			for _, ev := range tr.Events {
+				if ev.Type == "message" || ev.Type == "tx" || ev.Type == "coin_spent" || ev.Type == "coin_received" {
+					continue
+				}
+				fmt.Printf("DEBUGTXEV h=%d tx=%d code=%d %s", h, i, tr.Code, ev.Type)
+				for _, a := range ev.Attributes {
+					fmt.Printf(" %s=%s", a.Key, a.Value)
+				}
+				fmt.Println()
+			}
+		}
 		for _, ev := range res0.Resp.Events {
 			if strings.HasPrefix(ev.Type, "coin_") || ev.Type == "transfer" || ev.Type == "message" || ev.Type == "coinbase" || ev.Type == "burn" || ev.Type == "mint" {
 				continue
